@@ -6,8 +6,12 @@ import math
 import numpy as np
 from harness import common as C
 
-RULE = ('fixtures: 1-5 model parameters (decorated + add_fittable_param, optionally collected from a sub-component as '
-        'SimpleForwardModel does), 0-3 observation parameters, 0-3 derived parameters, log and linear modes, default_fit on/'
+RULE = ('fixtures: 1-5 model parameters (decorated in both forms of the decorator + add_fittable_param in the subclass '
+        'constructor, optionally collected from a sub-component as SimpleForwardModel does; optional Fittable.modify_bounds '
+        'calls in / after the constructor; the table the optimizer reads is judged against the declarations first), a real '
+        'TransmissionModel assembled from the repo\'s own components (isothermal / 1-3 node NPoint / Guillot / Rodgers; '
+        'Constant / TwoLayer / TwoPoint / Power gas profiles; clouds / flat Mie / Lee Mie) with a random third of all its '
+        'parameters fitted and written through, 0-3 observation parameters, 0-3 derived parameters, log and linear modes, default_fit on/'
         'off, bounds in either order incl. non-positive ones on log parameters; sequences of 3-12 (quick) / 3-60 (thorough) '
         'operations drawn from the 10 operations with unknown names, bad modes, wrong-length vectors, user priors of all four '
         'classes in both spaces, write-back of reported values. distinct non-trivial = distinct operation-kind sequences '
@@ -20,7 +24,9 @@ ASSUMPTIONS = ['math.log10 raises ValueError exactly for x <= 0; 10**x on Python
                'names are unique across the model and observation tables (hypothesis of compile_history_free)',
                'values, bounds and factors are finite floats, |exponent| <= 30 (NaN/inf/overflow: malformed stream)',
                'scipy ndtri supplies the 10%/90% quantiles behind Gaussian.boundaries()',
-               'parameter getters/setters are plain attribute accessors (the fixture\'s), as for every fitparam in taurex',
+               'parameter getters/setters of the fixture are plain attribute accessors; those of the real forward model are the '
+               'package\'s own closures / properties (planet_sma, a second name for the value behind planet_distance, is dropped '
+               'from its table)',
                'sections: values enter the model as ParameterParser.transform typed them (ConfigObj parsing and transform are '
                'exercised, not modelled; the yes/no meaning of fit/compute values is checked against the written text); '
                'create_prior is the C08 model (parsePrior + createPrior, literals converted by Float.ofScientific); bounds/factor '
@@ -107,10 +113,19 @@ def z1090():
 
 
 # ----------------------------------------------------------------------------- fixture: real Fittable objects
+class FixtureDefect(Exception):
+    """the REAL objects built for a case do not hold what they declare (the table the optimizer reads lacks a declared
+    parameter, carries other settings than declared, …): judged as a violation by the caller, never an infrastructure error"""
+
+    def __init__(self, key, what, detail=None):
+        super().__init__(what)
+        self.key, self.what, self.detail = key, what, detail
+
+
 def _make_props(params, derived):
     from taurex.core import fitparam, derivedparam
     ns = {}
-    for name, mode, fit, bounds, value in params:
+    for i, (name, mode, fit, bounds, value) in enumerate(params):
         attr = '_v_' + name
 
         def getter(self, _a=attr):
@@ -118,8 +133,9 @@ def _make_props(params, derived):
 
         def setter(self, v, _a=attr):
             setattr(self, _a, v)
-        prop = fitparam(getter, param_name=name, param_latex='$%s$' % name, default_mode=mode, default_fit=fit,
-                        default_bounds=list(bounds))
+        kw = dict(param_name=name, param_latex='$%s$' % name, default_mode=mode, default_fit=fit, default_bounds=list(bounds))
+        # both documented forms of the decorator: direct `fitparam(f, …)` and keyword-only `@fitparam(…)`
+        prop = fitparam(getter, **kw) if i % 2 == 0 else fitparam(**kw)(getter)
         ns['p_' + name] = prop.setter(setter)
     for name, compute in derived:
         def dget(self):
@@ -137,6 +153,7 @@ def make_pair(cfg):
     if cfg.get('real'):
         return make_real_pair(cfg)
     mparams = [tuple(p) for p in cfg['model']]
+    modb = [tuple(h) for h in (cfg.get('modb') or [])]      # (owner, name, (b0, b1), when): Fittable.modify_bounds calls
     ndyn = min(int(cfg.get('ndyn', 0)), len(mparams))
     composite = bool(cfg.get('composite')) and len(mparams) - ndyn >= 2
     deco = mparams[:len(mparams) - ndyn]
@@ -169,8 +186,14 @@ def make_pair(cfg):
                     setattr(s, _a, v)
                 self.add_fittable_param(name, '$%s$' % name, fget, fset, mode, fit, list(bounds))
             if composite:
-                # same collection scheme as SimpleForwardModel.collect_fitting_parameters
                 self._component = Component()
+            # boundaries the object derives for itself in its constructor (as LightCurveModel does from its data)
+            for owner, name, b, when in modb:
+                if owner == 'model' and when == 'init':
+                    tgt = self._component if (composite and name in [p[0] for p in comp_part]) else self
+                    tgt.modify_bounds(name, list(b))
+            if composite:
+                # same collection scheme as SimpleForwardModel.collect_fitting_parameters
                 self._fitting_parameters = {}
                 self._fitting_parameters.update(self.fitting_parameters())
                 self._fitting_parameters.update(self._component.fitting_parameters())
@@ -191,6 +214,9 @@ def make_pair(cfg):
         def __init__(self):
             init_values(self, [tuple(p) for p in cfg['obs']])
             super().__init__('VObs')
+            for owner, name, b, when in modb:
+                if owner == 'obs' and when == 'init':
+                    self.modify_bounds(name, list(b))
 
         def create_binner(self):
             from taurex.binning import NativeBinner
@@ -202,31 +228,146 @@ def make_pair(cfg):
         setattr(VObs, k, v)
     m = VModel()
     o = VObs()
-    assert list(m.fittingParameters) == [p[0] for p in mparams], (list(m.fittingParameters), mparams)
-    assert list(o.fittingParameters) == [p[0] for p in cfg['obs']]
+    for owner, name, b, when in modb:
+        if when == 'later':
+            (m if owner == 'model' else o).modify_bounds(name, list(b))
+    for what, obj, decl in (('model', m, mparams), ('observation', o, [tuple(p) for p in cfg['obs']])):
+        if list(obj.fittingParameters) != [p[0] for p in decl]:
+            raise FixtureDefect('declared-table:names:' + what,
+                                'the table the optimizer reads (%s.fittingParameters) does not hold the parameters the %s '
+                                'declares (decorated ones, then those added with add_fittable_param in its constructor)'
+                                % (what, what), dict(table=list(obj.fittingParameters), declared=[p[0] for p in decl]))
     return m, o
 
 
-def make_real_pair(cfg):
-    """a real TransmissionModel (planet, star, isothermal profile, TaurexChemistry with two ConstantGas components; no
-    opacity data is needed to build it) whose table is assembled by SimpleForwardModel.collect_fitting_parameters, and
-    the fixture observation.  `planet_sma` is dropped from the table: it is a second name for the attribute behind
-    `planet_distance`, and two names for one value are outside the one-value-per-name state of the model."""
+def declared_rows(cfg, owner):
+    """(name, mode, fit, b0, b1) the object of `owner` declares: its declarations with the last modify_bounds applied"""
+    rows = []
+    for name, mode, fit, bounds, value in (cfg['model'] if owner == 'model' else cfg['obs']):
+        b = tuple(bounds)
+        for ow, n, nb, when in (cfg.get('modb') or []):
+            if ow == owner and n == name:
+                b = tuple(nb)
+        rows.append((name, 0 if mode == 'linear' else 1, bool(fit), float(b[0]), float(b[1])))
+    return rows
+
+
+def check_declared(ctx, cfg, model, obs, case):
+    """the tables the optimizer is going to read are the declared ones: names and order, mode, fit flag, and the bounds of
+    the last modify_bounds — against FittableTable.declaredTable (driver) and directly.  False = a violation was raised."""
+    ok = True
+    for owner, obj in (('model', model), ('obs', obs)):
+        if owner == 'model' and cfg.get('real'):
+            continue
+        rows = declared_rows(cfg, owner)
+        decls = cfg['model'] if owner == 'model' else cfg['obs']
+        hist = [(n, b) for ow, n, b, when in (cfg.get('modb') or []) if ow == owner]
+        got = [(n, m, f, b0, b1) for n, m, f, b0, b1, v in table_view(obj)]
+        d = ctx.model().call('c07.table',
+                             C.L(decls, lambda p: ' '.join([C.S(p[0]), '1 ' + C.N(0 if p[1] == 'linear' else 1),
+                                                            '1 ' + C.N(1 if p[2] else 0),
+                                                            '1 %s %s' % (C.F(p[3][0]), C.F(p[3][1]))])),
+                             C.L(hist, lambda h: ' '.join([C.S(h[0]), C.F(h[1][0]), C.F(h[1][1])])))
+        mt = d.list(lambda: (d.str(), d.nat(), d.bool(), d.flt(), d.flt())) if d.nat() else None
+        ctx.check_eq('%s table (names, modes, fit flags, bounds) vs FittableTable.declaredTable' % owner, got, mt,
+                     dict(cfg=cfg, owner=owner))
+        if got != rows:
+            bad = [(g, w) for g, w in zip(got, rows) if g != w][:1]
+            what = 'bounds' if bad and bad[0][0][:3] == bad[0][1][:3] else 'settings'
+            ctx.violation('declared-table:%s:%s' % (what, owner if owner == 'model' else 'observation'),
+                          'the table the optimizer reads does not carry the declared settings (mode, fit flag, and the '
+                          'boundaries of the last modify_bounds) of every declared parameter', case,
+                          dict(table=got, declared=rows))
+            ok = False
+        for ow, n, b, when in (cfg.get('modb') or []):
+            if ow == owner:
+                ctx.bucket('declared:modify_bounds:%s:%s' % (owner, when))
+    if not cfg.get('real'):
+        ctx.bucket('declared:dynamic-params:%d' % min(int(cfg.get('ndyn', 0)), len(cfg['model'])))
+    return ok
+
+
+REAL_T = ['isothermal', 'npoint1', 'npoint2', 'npoint3', 'guillot', 'rodgers']
+REAL_GAS = ['constant', 'twolayer', 'twopoint', 'power']
+REAL_MOL = ['H2O', 'CH4', 'CO2', 'TiO']
+REAL_CONTRIB = ['clouds', 'flatmie', 'leemie']
+
+
+def gen_real_variant(rng):
+    """which of the repo's own components make up the real forward model: every component that declares fitting parameters
+    through closures over its own attributes (add_fittable_param: gas profiles, N-point / Rodgers temperature nodes, the
+    fill-gas ratio) or through the decorator (planet, pressure, Guillot, clouds, Mie)"""
+    ngas = int(rng.integers(1, 4))
+    mols = [REAL_MOL[i] for i in rng.permutation(4)[:ngas]]
+    gases = [[m, REAL_GAS[int(rng.integers(0, 4))]] for m in mols]
+    contribs = [c for c in REAL_CONTRIB if rng.random() < 0.35]
+    return dict(t=REAL_T[int(rng.integers(0, len(REAL_T)))], gases=gases, contribs=contribs,
+                fill=['H2', 'He'] if rng.random() < 0.7 else ['H2', 'He', 'N2'])
+
+
+def build_real_model(variant):
     from taurex.model import TransmissionModel
     from taurex.planet import Planet
     from taurex.stellar import BlackbodyStar
-    from taurex.temperature import Isothermal
-    from taurex.chemistry import TaurexChemistry, ConstantGas
+    from taurex.temperature import Isothermal, NPoint, Guillot2010, Rodgers2000
+    from taurex.chemistry import TaurexChemistry, ConstantGas, TwoLayerGas
+    from taurex.data.profiles.chemistry import PowerGas
+    from taurex.data.profiles.chemistry.gas.twopointgas import TwoPointGas
     from taurex.pressure import SimplePressureProfile
-    chem = TaurexChemistry(fill_gases=['H2', 'He'], ratio=0.17)
-    chem.addGas(ConstantGas('H2O', 1e-4))
-    chem.addGas(ConstantGas('CH4', 1e-5))
-    tm = TransmissionModel(planet=Planet(), star=BlackbodyStar(), temperature_profile=Isothermal(T=1200.0), chemistry=chem,
+    from taurex.contributions import SimpleCloudsContribution, FlatMieContribution, LeeMieContribution
+    if variant is True:
+        variant = dict(t='isothermal', gases=[['H2O', 'constant'], ['CH4', 'constant']], contribs=[], fill=['H2', 'He'],
+                       legacy=True)
+    t = variant['t']
+    if t == 'isothermal':
+        tp = Isothermal(T=1200.0)
+    elif t.startswith('npoint'):
+        k = int(t[-1])
+        tp = NPoint(T_surface=1500.0, T_top=300.0, P_surface=1e6, P_top=1e-2,
+                    temperature_points=[1100.0, 900.0, 700.0][:k], pressure_points=[1e4, 1e3, 1e2][:k])
+    elif t == 'guillot':
+        tp = Guillot2010(T_irr=1500.0, kappa_irr=0.01, kappa_v1=0.005, kappa_v2=0.004, alpha=0.5, T_int=100.0)
+    else:
+        tp = Rodgers2000(temperature_layers=[1000.0, 900.0, 800.0], correlation_length=5.0)    # one per layer (3 layers)
+    fill = list(variant.get('fill') or ['H2', 'He'])
+    chem = TaurexChemistry(fill_gases=fill, ratio=0.17 if len(fill) == 2 else [0.17, 0.02])
+    for j, (mol, kind) in enumerate(variant['gases']):
+        if variant.get('legacy'):
+            chem.addGas(ConstantGas(mol, [1e-4, 1e-5][j]))
+        elif kind == 'constant':
+            chem.addGas(ConstantGas(mol, mix_ratio=1e-4 / (j + 1)))
+        elif kind == 'twolayer':
+            chem.addGas(TwoLayerGas(mol, mix_ratio_surface=1e-4, mix_ratio_top=1e-6 / (j + 1), mix_ratio_P=1e3))
+        elif kind == 'twopoint':
+            chem.addGas(TwoPointGas(mol, mix_ratio_surface=2e-4, mix_ratio_top=1e-7 / (j + 1)))
+        else:
+            chem.addGas(PowerGas(mol, profile_type='TiO', mix_ratio_surface=1e-7, alpha=1.5, beta=2e4, gamma=12.0))
+    tm = TransmissionModel(planet=Planet(), star=BlackbodyStar(), temperature_profile=tp, chemistry=chem,
                            pressure_profile=SimplePressureProfile(nlayers=3), nlayers=3)
+    for c in variant['contribs']:
+        tm.add_contribution(dict(clouds=lambda: SimpleCloudsContribution(clouds_pressure=1e3),
+                                 flatmie=lambda: FlatMieContribution(flat_mix_ratio=1e-10, flat_bottomP=1e4, flat_topP=1e1),
+                                 leemie=lambda: LeeMieContribution(lee_mie_radius=0.01, lee_mie_q=40.0, lee_mie_mix_ratio=1e-10,
+                                                                   lee_mie_bottomP=1e4, lee_mie_topP=1e1))[c]())
     tm.build()
+    return tm
+
+
+def make_real_pair(cfg):
+    """a real TransmissionModel (planet, star, a temperature profile, TaurexChemistry with one to three gas profiles of the
+    repo's own kinds, optional cloud / Mie contributions; no opacity data is needed to build it) whose table is assembled by
+    SimpleForwardModel.collect_fitting_parameters, and the fixture observation.  `cfg['real']` is True (isothermal, two
+    ConstantGas: the first fixture) or a variant description (gen_real_variant).  `planet_sma` is dropped from the table:
+    it is a second name for the attribute behind `planet_distance`, and two names for one value are outside the
+    one-value-per-name state of the model."""
+    tm = build_real_model(cfg['real'])
     del tm.fittingParameters['planet_sma']
     if cfg.get('model'):
-        assert [p[0] for p in cfg['model']] == list(tm.fittingParameters)
+        if [p[0] for p in cfg['model']] != list(tm.fittingParameters):
+            raise FixtureDefect('parameter-table-changed:real-model',
+                                'the real forward model built from the same components no longer collects the parameters the '
+                                'case was recorded with', dict(table=list(tm.fittingParameters),
+                                                               recorded=[p[0] for p in cfg['model']]))
         for name, mode, fit, bounds, value in cfg['model']:
             t = tm.fittingParameters[name]
             tm.fittingParameters[name] = (t[0], t[1], t[2], t[3], mode, bool(fit), list(bounds))
@@ -404,7 +545,7 @@ def rnd_bounds(rng, positive):
     return (a, b)
 
 
-def gen_cfg(rng):
+def gen_cfg(rng, real_variants=False):
     nm = int(rng.integers(1, 6))
     no = int(rng.integers(0, 4))
 
@@ -417,9 +558,23 @@ def gen_cfg(rng):
     dm = [('mu', bool(rng.random() < 0.5)), ('logg', bool(rng.random() < 0.3))][:int(rng.integers(0, 3))]
     do = [('avg_err', bool(rng.random() < 0.5))][:int(rng.integers(0, 2))]
     if rng.random() < 0.12:
-        return dict(real=True, model=None, obs=[par(n) for n in onames], dmodel=None, dobs=do, ndyn=0, composite=False)
-    return dict(model=[par(n) for n in names], obs=[par(n) for n in onames], dmodel=dm, dobs=do,
-                ndyn=int(rng.integers(0, nm + 1)), composite=bool(rng.random() < 0.4))
+        real = gen_real_variant(rng) if (real_variants and rng.random() < 0.8) else True
+        return dict(real=real, model=None, obs=[par(n) for n in onames], dmodel=None, dobs=do, ndyn=0, composite=False)
+    cfg = dict(model=[par(n) for n in names], obs=[par(n) for n in onames], dmodel=dm, dobs=do,
+               ndyn=int(rng.integers(0, nm + 1)), composite=bool(rng.random() < 0.4))
+    if rng.random() < 0.35:
+        # the object changes boundaries of its own parameters with Fittable.modify_bounds: in its constructor ('init') or
+        # afterwards ('later'; a collected table - composite - is a snapshot taken at build time, as SimpleForwardModel's)
+        modb = []
+        for _ in range(int(rng.integers(1, 3))):
+            owner = 'obs' if (onames and rng.random() < 0.3) else 'model'
+            rows = cfg['obs'] if owner == 'obs' else cfg['model']
+            row = rows[int(rng.integers(0, len(rows)))]
+            when = 'init' if (rng.random() < 0.5 or (owner == 'model' and cfg['composite'])) else 'later'
+            modb.append([owner, row[0], list(rnd_bounds(rng, row[1] == 'log' and rng.random() < 0.93)), when])
+        modb.sort(key=lambda h: h[3])      # executed: constructor calls first
+        cfg['modb'] = modb
+    return cfg
 
 
 def gen_prior_ctor(rng):
@@ -437,8 +592,9 @@ def gen_prior_ctor(rng):
     return dict(k=k, a=[rnd_val(rng, True), float(rng.uniform(0.1, 3))])
 
 
-def gen_op(rng, cfg, opt, model, obs, compiled_once):
-    """next operation, looking at the live objects only to stay mostly valid"""
+def gen_op(rng, cfg, opt, model, obs, compiled_once, force=None):
+    """next operation, looking at the live objects only to stay mostly valid; `force` = 'compile' / 'update_model' fixes
+    the kind (directed prefix of the sequences over the real forward model)"""
     fitn = [p[0] for p in cfg['model']] + [p[0] for p in cfg['obs']]
     dern = [d[0] for d in cfg['dmodel']] + [d[0] for d in cfg['dobs']]
 
@@ -452,6 +608,10 @@ def gen_op(rng, cfg, opt, model, obs, compiled_once):
             return 'no_such_param'
         return pool[int(rng.integers(0, len(pool)))]
     r = rng.random()
+    if force == 'compile':
+        return ['compile']
+    if force == 'update_model':
+        r = 0.95
     if not compiled_once and r < 0.25:
         return ['compile']
     if r < 0.20:
@@ -490,6 +650,8 @@ def gen_op(rng, cfg, opt, model, obs, compiled_once):
         else:
             v.append(rnd_val(rng))
     r = rng.random()
+    if force:
+        return ['update_model', v]
     if r < 0.08:
         v = v + [1.0]
     elif r < 0.14 and v:
@@ -545,7 +707,7 @@ def fresh_view(cfg, model, obs, user):
         mt = canon(mt, cfg['model'])
     if cfg.get('obs'):
         ot = canon(ot, cfg['obs'])
-    cfg2 = dict(cfg, model=mt, obs=ot, dmodel=derived_view(model), dobs=derived_view(obs))
+    cfg2 = dict(cfg, model=mt, obs=ot, dmodel=derived_view(model), dobs=derived_view(obs), modb=[])
     m2, o2 = make_pair(cfg2)
     opt2 = Optimizer('fresh', observed=o2, model=m2)
     for n, p in user.items():
@@ -568,7 +730,16 @@ def run_sequence(ctx, case, gen=None):
     cfg = dict(cfg, model=[(p[0], p[1], bool(p[2]), tuple(p[3]), float(p[4])) for p in (cfg.get('model') or [])],
                obs=[(p[0], p[1], bool(p[2]), tuple(p[3]), float(p[4])) for p in cfg['obs']],
                dmodel=[tuple(d) for d in (cfg.get('dmodel') or [])], dobs=[tuple(d) for d in cfg['dobs']])
-    model, obs = make_pair(cfg)
+    case0 = dict(cfg=cfg, ops=[list(o) for o in case.get('ops', [])])
+    try:
+        model, obs = make_pair(cfg)
+    except FixtureDefect as e:
+        ctx.violation(e.key, e.what, case0, e.detail)
+        ctx.case(key=None, bucket='aborted')
+        return case0
+    if not check_declared(ctx, cfg, model, obs, case0):
+        ctx.case(key=None, bucket='aborted')
+        return case0
     # the initial state handed to the model is read from the objects (for the real forward model: its own defaults)
     mt, ot = settings_of(model, obs)
     cfg = dict(cfg, model=[(n, m, f, (float(b[0]), float(b[1])), float(v)) for n, m, f, b, v in mt],
@@ -590,7 +761,9 @@ def run_sequence(ctx, case, gen=None):
     fitnames = set(p[0] for p in cfg['model']) | set(p[0] for p in cfg['obs'])
     dernames = set(d[0] for d in cfg['dmodel']) | set(d[0] for d in cfg['dobs'])
     for i in range(n_ops):
-        op = gen_op(gen['rng'], cfg, opt, model, obs, compiled_once) if gen else ops_in[i]
+        forced = (gen.get('force') or []) if gen else []
+        op = gen_op(gen['rng'], cfg, opt, model, obs, compiled_once, force=forced[i] if i < len(forced) else None) \
+            if gen else ops_in[i]
         recorded.append(op)
         before = real[-1]
         ex = op
@@ -746,6 +919,23 @@ def run_sequence(ctx, case, gen=None):
     if recompiled_after_change:
         ctx.bucket('recompiled-after-change')
     ctx.bucket('fixture:' + ('TransmissionModel' if cfg.get('real') else ('composite' if cfg.get('composite') else 'flat')))
+    if isinstance(cfg.get('real'), dict):
+        v = cfg['real']
+        ctx.bucket('real:temperature:' + v['t'])
+        for mol, kind in v['gases']:
+            ctx.bucket('real:gas:' + kind)
+        for c in v['contribs']:
+            ctx.bucket('real:contribution:' + c)
+        written = set()
+        for o in done:
+            if o[0] == 'update_model' and len(o[1]) == len(opt.fitting_parameters):
+                written.update(c[0] for c in opt.fitting_parameters)
+        gas = {mol: kind for mol, kind in v['gases']}
+        for n in sorted(written):
+            mol = n.split('_')[0]
+            if mol in gas:
+                n = 'gas:%s:<mol>%s' % (gas[mol], n[len(mol):])
+            ctx.bucket('real:written:' + (n if not n[-1].isdigit() else n.rstrip('0123456789') + 'N'))
     return case_out
 
 
@@ -1010,7 +1200,14 @@ def run_section(ctx, case, check_order=True):
     cfg = dict(cfg, model=[(p[0], p[1], bool(p[2]), tuple(p[3]), float(p[4])) for p in (cfg.get('model') or [])],
                obs=[(p[0], p[1], bool(p[2]), tuple(p[3]), float(p[4])) for p in cfg['obs']],
                dmodel=[tuple(d) for d in (cfg.get('dmodel') or [])], dobs=[tuple(d) for d in cfg['dobs']])
-    model, obs = make_pair(cfg)
+    case0 = dict(type='section', cfg=cfg, fitting=case['fitting'], derive=case['derive'])
+    try:
+        model, obs = make_pair(cfg)
+    except FixtureDefect as e:
+        ctx.violation(e.key, e.what, case0, e.detail)
+        return
+    if not check_declared(ctx, cfg, model, obs, case0):
+        return
     mt, ot = settings_of(model, obs)
     cfg = dict(cfg, model=[(n, m, f, (float(b[0]), float(b[1])), float(v)) for n, m, f, b, v in mt],
                obs=[(n, m, f, (float(b[0]), float(b[1])), float(v)) for n, m, f, b, v in ot],
@@ -1189,11 +1386,20 @@ def run(ctx):
     rng = ctx.rng
     maxlen = ctx.n(12, 60)
     for _ in range(ctx.n(1500, 20000)):
-        cfg = gen_cfg(rng)
+        cfg = gen_cfg(rng, real_variants=True)
         n = int(rng.integers(3, maxlen + 1))
-        run_sequence(ctx, dict(cfg=cfg), gen=dict(rng=rng, n=n))
+        force = None
+        if cfg.get('real'):
+            # the real forward model: a random third of ALL the parameters its components declare is fitted from the start,
+            # and every sequence begins with compile + update_model, so that the getter / setter pair of every kind of
+            # parameter the package declares (closures of the gas profiles and temperature nodes, decorated properties of
+            # planet, pressure, clouds, …) is written through and read back in every run
+            cfg = randomise_real(rng, cfg)
+            force = ['compile', 'update_model']
+            n = max(n, 4)
+        run_sequence(ctx, dict(cfg=cfg), gen=dict(rng=rng, n=n, force=force))
     for _ in range(ctx.n(500, 6000)):
-        cfg = gen_cfg(rng)
+        cfg = gen_cfg(rng, real_variants=True)
         if cfg.get('real'):
             m, o = make_pair(cfg)
             mt, ot = settings_of(m, o)
@@ -1201,6 +1407,15 @@ def run(ctx):
         lines, dlines = gen_section(rng, cfg)
         run_section(ctx, dict(cfg=cfg, fitting=lines, derive=dlines))
     malformed(ctx)
+
+
+def randomise_real(rng, cfg):
+    m, o = make_pair(cfg)
+    mt, ot = settings_of(m, o)
+    rows = []
+    for name, mode, fit, bounds, value in mt:
+        rows.append((name, mode, bool(fit) or bool(rng.random() < 0.3), (float(bounds[0]), float(bounds[1])), float(value)))
+    return dict(cfg, model=rows, obs=ot, dmodel=derived_view(m), dobs=derived_view(o))
 
 
 def malformed(ctx):
